@@ -121,7 +121,9 @@ def expected (nm : Names) (s : Shared) (l : Local) : Option String :=
   | .finished _ => none
 
 def relevant (nm : Names) (body : String) : Bool :=
-  body == nm.marker || (body.splitOn " ").any fun t => t == nm.gauge || t == nm.limit
+  -- a bare READ of a gauge (`ConcurrentCommands()` / `ConcurrentFallbacks()`: the monitors' own look at it) is nobody's model step
+  !(body.startsWith "load c.concurrentCommands " || body.startsWith "load c.concurrentFallbacks ") &&
+  (body == nm.marker || (body.splitOn " ").any fun t => t == nm.gauge || t == nm.limit)
 
 def conform (nm : Names) (c : Config Shared Local) : List String → List String
   | [] => []
@@ -560,7 +562,8 @@ def gaugeVar := "c.concurrentCommands"
 def limitVar := "c.threadSafeConfig.Execution.MaxConcurrentRequests"
 
 def tracked (body : String) : Bool :=
-  TrCall.tracked body || body == "in-run" || (body.splitOn " ").any fun t => t == gaugeVar || t == limitVar
+  !(body.startsWith "load c.concurrentCommands " || body.startsWith "load c.concurrentFallbacks ") &&
+  (TrCall.tracked body || body == "in-run" || (body.splitOn " ").any fun t => t == gaugeVar || t == limitVar)
 
 def expected (marker : String) (s : Shared) (l : Local) : Option String :=
   let ldFO := s!"load {TrTrans.fo} -> {s.t.forceOpen}"
@@ -654,7 +657,8 @@ def fbDisabledVar := "c.threadSafeConfig.Fallback.Disabled"
 def disabledVar := "c.threadSafeConfig.CircuitBreaker.Disabled"
 
 def tracked (body : String) : Bool :=
-  TrRun.tracked body || body == "in-fallback" || (body.splitOn " ").any fun t => t == fbGaugeVar || t == fbLimitVar || t == fbDisabledVar || t == disabledVar
+  !(body.startsWith "load c.concurrentCommands " || body.startsWith "load c.concurrentFallbacks ") &&
+  (TrRun.tracked body || body == "in-fallback" || (body.splitOn " ").any fun t => t == fbGaugeVar || t == fbLimitVar || t == fbDisabledVar || t == disabledVar)
 
 def expected (s : Shared) : Local → Option String
   | .op .. => none
